@@ -204,10 +204,17 @@ class Ctx:
         return None
 
 
+class _Budget:
+    left = 0
+
+
 def canon(x, ctx, depth=0):
-    """JSON-able canonical form of anything a read returns"""
-    if depth > 12:
-        return "too-deep"
+    """JSON-able canonical form of anything a read returns (bounded: a result that explodes is an observation, not a hang)"""
+    if depth == 0:
+        _Budget.left = 4000
+    _Budget.left -= 1
+    if depth > 12 or _Budget.left < 0:
+        return "too-deep-or-too-large"
     if isinstance(x, torch.Tensor):
         t, lvl = _unwrap_batched(x)
         try:
